@@ -6,7 +6,7 @@
    tree the parser returns exactly the denotation.  Totality clause: for ANY string the parsers return a
    definition or raise ValueError. *)
 From Coq Require Import ZArith NArith List Bool.
-From SV Require Import Base.Py Rx.Syntax Rx.Lemmas Gen.Generated Schema.Model Schema.Total
+From SV Require Import Gen.Sharing Base.Py Rx.Syntax Rx.Lemmas Gen.Generated Schema.Model Schema.Total
   Schema.GMatch Schema.GChain Schema.GObjectClass Schema.GAttributeType Schema.GDitContentRule Schema.GWfDec.
 Import ListNotations.
 
@@ -55,6 +55,13 @@ Example C17_example :
                    [mkExt 0%nat [102; 111; 111]%N 2%nat (SParen 0%nat [DPlain 98%N] [(1%nat, [DBslLower])] 2%nat); mkExt 1%nat [98]%N 0%nat (SEmpty 3%nat)] 0%nat).
 Proof. exact oc_cst_example_wf. Qed.
 
+(* The theorems above are about functions and values; that schema.py keeps no state
+   between calls and shares none between objects is read off the source by tools/audit.py on every run
+   (Gen/Sharing.v): no memoisation, no module- or class-level container that is written, no mutable default, no
+   attribute written behind a dataclass, no parameter stored without a copy. *)
+Theorem C17_audit_no_state_between_calls : (hidden_state_schema = [])%list.
+Proof. exact eq_refl. Qed.
+
 Print Assumptions C17_object_class_sentences.
 Print Assumptions C17_attribute_type_sentences.
 Print Assumptions C17_dit_content_rule_sentences.
@@ -64,3 +71,4 @@ Print Assumptions C17_attribute_type_total.
 Print Assumptions C17_dit_content_rule_total.
 Print Assumptions C17_matcher_never_exhausts_fuel.
 Print Assumptions C17_mandatory_groups_are_captured.
+Print Assumptions C17_audit_no_state_between_calls.
